@@ -8,7 +8,7 @@ from .. import lexfam
 def run(tier):
     ck = C.Check("C08", tier)
     failed = ck.proofs()
-    n_g, n_in = (30, 40) if tier == "quick" else (800, 150)
+    n_g, n_in = (30, 40) if tier == "quick" else (500, 120)
     res = lexfam.run_family(ck, n_g, n_in, with_reset=False)
     scans = oracle_bad = tie_bad = 0
     nontrivial = set()
